@@ -293,7 +293,7 @@ pub fn generate(tier: &str, seed: u64, out: &Path, nshards: usize, replay: Optio
                 }
             }
         }
-        let scale = if tier == "thorough" { 8 } else { 1 };
+        let scale = if tier == "thorough" { 6 } else { 1 };
         let gcfg = GenCfg::default();
         for _ in 0..(400 * scale) {
             let p = reggen::rand_program(&mut rng, &gcfg);
